@@ -131,6 +131,18 @@ func c15instanceFor(c c15case, opts []buffer.Option) (*c15instance, error) {
 		return in, nil
 	}
 	in := &c15instance{}
+	// options are not supplied in one fixed order, and the OTHER direction's maximum is spelled out as "no limit" (0)
+	// on two instances out of three - after this direction's options, or before them
+	other := buffer.MaxRequestBodyBytes(0)
+	if c.side == "request" {
+		other = buffer.MaxResponseBodyBytes(0)
+	}
+	switch (c.lim.mem + c.lim.max + c.retries) % 3 {
+	case 0:
+		opts = append(append([]buffer.Option{}, opts...), other)
+	case 1:
+		opts = append([]buffer.Option{other}, opts...)
+	}
 	b, err := buffer.New(http.HandlerFunc(func(w http.ResponseWriter, r *http.Request) { in.cur.ServeHTTP(w, r) }), opts...)
 	if err != nil {
 		return nil, err
@@ -393,7 +405,7 @@ func c15cases(tier string) []c15case {
 func RunC15(tier string, sh lib.Shard, rep *lib.Report) {
 	cases := c15cases(tier)
 	rep.Bounds["cases"] = len(cases)
-	rep.Rule = "full product (memory threshold, maximum) in {(8,16),(16,16),(32,16),(8,unlimited)} x size {0,mem-1,mem,mem+1,max-1,max,max+1,2max} x request framing {declared, chunked 1/5, unknown length without chunking (HTTP/2 stream), declared length understating the body} / response write pattern {one, straddling mem, straddling max, bytewise} x method x response status {200,204,304,500; 99 and 1000, which the client writer refuses} x header {-,Content-Length:0,Grpc-Status:1} x retries {0,1,2}, also for requests that ask for an upgrade which the handler declines; long-lived Buffer instances (one per side x limits x retries) serving their cases in sequence; private $TMPDIR per worker inspected after every exchange; non-trivial = exchanges that spilled to disk or exceeded a limit"
+	rep.Rule = "full product (memory threshold, maximum) in {(8,16),(16,16),(32,16),(8,unlimited)} x size {0,mem-1,mem,mem+1,max-1,max,max+1,2max} x request framing {declared, chunked 1/5, unknown length without chunking (HTTP/2 stream), declared length understating the body} / response write pattern {one, straddling mem, straddling max, bytewise} x method x response status {200,204,304,500; 99 and 1000, which the client writer refuses} x header {-,Content-Length:0,Grpc-Status:1} x retries {0,1,2}, also for requests that ask for an upgrade which the handler declines; long-lived Buffer instances (one per side x limits x retries; the other direction's maximum spelled out as 0 = unlimited after / before / not at all) serving their cases in sequence; private $TMPDIR per worker inspected after every exchange; non-trivial = exchanges that spilled to disk or exceeded a limit"
 	rep.Require("request_spills", "response_spills", "oversized_requests", "oversized_responses", "aborted_exchanges", "broken_client_connections", "responses_with_a_status_the_client_writer_refuses")
 	for i, c := range cases {
 		if !sh.Mine(i) {
